@@ -61,8 +61,8 @@ COQ_PRIM = {"Int8": "TInt8", "Int16": "TInt16", "Int32": "TInt32", "Int64": "TIn
             "UnsignedVarInt32": "TUVarInt", "VarInt32": "TVarInt32", "VarInt64": "TVarInt64",
             "CompactString": "TCompactString", "CompactBytes": "TCompactBytes", "TaggedFields": "TTagged"}
 VARINT_BOUNDS = [0, 1, 127, 128, 16383, 16384, 2097151, 2097152, 268435455, 268435456, 2**32 - 1]
-STR_POOL = [None, "", "a", "topic-1", "é", "日本語", "\U0001F600x", "\x00", "a" * 126, "a" * 127,
-            "b" * 128, "ü" * 100, "c" * 255, "d" * 256, "group.id/with:chars", "é" * 64]
+STR_POOL = [None, "", "a", "topic-1", "é", "日本語", "\U0001F600x", "\x00", "group.id/with:chars", "T_9.-x"]
+STR_POOL_LONG = ["a" * 126, "a" * 127, "b" * 128, "ü" * 100, "c" * 255, "d" * 256, "é" * 64]
 F64_POOL = [0, 0x8000000000000000, 0x3FF0000000000000, 0xBFF8000000000000, 0x7FF0000000000000,
             0xFFF0000000000000, 0x7FF8000000000000, 0x7FF0000000000001, 0x7FEFFFFFFFFFFFFF, 1,
             0x400921FB54442D18, 0xFFFFFFFFFFFFFFFF]
@@ -77,6 +77,8 @@ def gen_int(k, rng, mode):
         return lo
     if mode == "max":
         return hi
+    if mode == "one":
+        return rng.randint(2, min(100, hi))
     r = rng.random()
     if k == "UnsignedVarInt32" and r < 0.7:
         return rng.choice(VARINT_BOUNDS)
@@ -98,14 +100,16 @@ def gen_bytes(rng, mode, compact):
         return None
     if mode == "max":
         return "00ff7f80" + "ab" * 6
+    if mode == "one":
+        return "0102"
     r = rng.random()
     if r < 0.15:
         return None
     if r < 0.3:
         return ""
     if r < 0.4:
-        return bytes([rng.choice([0, 0x7F, 0x80, 0xFF])] * rng.choice([1, 2, 127, 128, 129])).hex()
-    if r < 0.45:
+        return bytes([rng.choice([0, 0x7F, 0x80, 0xFF])] * rng.choice([1, 2, 3, 127, 128, 129])).hex()
+    if r < 0.43:
         return bytes(rng.randrange(256) for _ in range(rng.choice([255, 256, 300]))).hex()
     return bytes(rng.randrange(256) for _ in range(rng.randrange(1, 24))).hex()
 
@@ -115,12 +119,14 @@ def gen_tagged(rng, mode):
         return []
     if mode == "max":
         return [[1, ""], [127, "00"], [128, "ffff"], [4294967295, "a5" * 128]]
+    if mode == "one":
+        return [[1, "09"]]
     r = rng.random()
     if r < 0.45:
         return []
     n = rng.choice([1, 1, 2, 3, 5])
     tags = sorted(rng.sample(sorted(set([t for t in VARINT_BOUNDS if t > 0] + [2, 3, 5, 1000, 70000, 2**31])), n))
-    return [[t, bytes(rng.randrange(256) for _ in range(rng.choice([0, 1, 2, 7, 127, 128]))).hex()] for t in tags]
+    return [[t, bytes(rng.randrange(256) for _ in range(rng.choice([0, 1, 2, 3, 7, 7, 127, 128]))).hex()] for t in tags]
 
 
 def gen(tr, rng, mode, depth=0):
@@ -128,8 +134,8 @@ def gen(tr, rng, mode, depth=0):
     if k in INT_RANGE:
         return gen_int(k, rng, mode)
     if k == "Boolean":
-        if mode in ("zero", "min", "max"):
-            return mode == "max"
+        if mode in ("zero", "min", "max", "one"):
+            return mode in ("max", "one")
         return rng.random() < 0.5
     if k == "Float64":
         if mode == "zero":
@@ -138,6 +144,8 @@ def gen(tr, rng, mode, depth=0):
             return 0xFFEFFFFFFFFFFFFF
         if mode == "max":
             return 0x7FF8000000000001
+        if mode == "one":
+            return 0x3FF8000000000000
         return rng.choice(F64_POOL) if rng.random() < 0.7 else rng.getrandbits(64)
     if k in ("String", "CompactString"):
         if mode == "zero":
@@ -146,8 +154,14 @@ def gen(tr, rng, mode, depth=0):
             return None
         if mode == "max":
             return "日本語-é-\U0001F600"
-        return rng.choice(STR_POOL) if rng.random() < 0.85 else "".join(
-            rng.choice("abcXYZ019-_.éß中") for _ in range(rng.randrange(1, 40)))
+        if mode == "one":
+            return "s%d" % rng.randint(0, 9)
+        r = rng.random()
+        if r < 0.7:
+            return rng.choice(STR_POOL)
+        if r < 0.8:
+            return rng.choice(STR_POOL_LONG)
+        return "".join(rng.choice("abcXYZ019-_.éß中") for _ in range(rng.randrange(1, 40)))
     if k in ("Bytes", "CompactBytes"):
         return gen_bytes(rng, mode, k == "CompactBytes")
     if k == "TaggedFields":
@@ -159,13 +173,15 @@ def gen(tr, rng, mode, depth=0):
             return None
         if mode == "max":
             return [gen(tr["of"], rng, "max", depth + 1), gen(tr["of"], rng, "min", depth + 1)]
+        if mode == "one":
+            return [gen(tr["of"], rng, "one", depth + 1)]
         r = rng.random()
         if r < 0.12:
             return None
         if r < 0.25:
             return []
         prim_elem = tr["of"]["k"] not in ("Schema", "Array", "CompactArray")
-        if prim_elem and r < 0.33:
+        if prim_elem and r < 0.29:
             n = rng.choice([126, 127, 128, 129])           # compact length + 1 crosses one byte
         else:
             n = rng.choice([1, 1, 2, 3]) if depth < 2 else rng.choice([1, 1, 2])
@@ -340,7 +356,13 @@ def run(ck: Check):
     # ---------------------------------------------------------------- (1) translator + proofs
     ok_t, out_t = ck.regenerate_schemas()
     ok_p, out_p = ck.coq_props("C11", timeout=1200)
+    import time as _time
+    t_start = _time.time()
+
+    def lap(what):
+        ck.log(f"  [{_time.time() - ck.t0:6.1f}s] {what}")
     ck.log(f"schemas translated ok={ok_t}; proofs ok={ok_p}")
+    lap("translator + proofs")
     if not ok_p:
         ck.log(out_p[-1500:])
 
@@ -365,13 +387,13 @@ def run(ck: Check):
 
     # ---------------------------------------------------------------- (2a) codec cases
     cases = []          # (name, tree, value)
-    nper = ck.n(20, 200)
+    nper = ck.n(16, 200)
     for name, s in list(structs.items()) + list(prims.items()):
         if name in unknown_types:
             continue
         tr = s["tree"]
         seen = set()
-        for mode in ("zero", "min", "max"):
+        for mode in ("zero", "min", "max", "one"):
             v = gen(tr, rng, mode)
             if vhash(v) not in seen:
                 seen.add(vhash(v))
@@ -406,11 +428,10 @@ def run(ck: Check):
     allcases = cases + domain_cases
     impl = run_impl("c11_impl.py", {"codec": [{"s": n, "v": v} for n, _, v in allcases]}, env=IMPL_ENV,
                     timeout=900)["codec"]
-    ck.log(f"codec: {len(allcases)} cases through the real classes")
+    lap(f"codec: {len(allcases)} cases through the real classes")
 
     # ---- monitor: round trip on the real classes
-    n_viol = 0
-    rt_fail = []
+    rt_fail = {}
     for (name, tr, v), r in zip(cases, impl[:ncodec]):
         key = (name, vhash(v))
         ck.count(key=key, nontrivial=not is_trivial(tr, v),
@@ -425,13 +446,14 @@ def run(ck: Check):
         elif not r.get("rest_ok"):
             bad = "decode consumed bytes beyond the encoding"
         if bad:
-            rt_fail.append(name)
-            n_viol += 1
-            if n_viol <= 6:
-                ck.violation(f"{name}: {bad} on an in-range value",
-                             {"kind": "roundtrip", "struct": name, "value": v, "real": r},
-                             signature=f"roundtrip:{name}")
-    ck.extra["roundtrip_failures"] = len(rt_fail)
+            rt_fail.setdefault(name, []).append((len(json.dumps(v)), bad, v, r))
+    # one replay per struct, the smallest failing value; at most five structs
+    for name in sorted(rt_fail, key=lambda n: min(x[0] for x in rt_fail[n]))[:5]:
+        _, bad, v, r = min(rt_fail[name], key=lambda x: x[0])
+        ck.violation(f"{name}: {bad} on an in-range value",
+                     {"kind": "roundtrip", "struct": name, "value": v, "real": r,
+                      "structs_failing": len(rt_fail)}, signature=f"roundtrip:{name}")
+    ck.extra["roundtrip_failures"] = sum(len(x) for x in rt_fail.values())
 
     # ---- correspondence: the same cases through model/Wire.v inside Coq
     def case_term(name, tr, v, r):
@@ -452,6 +474,17 @@ def run(ck: Check):
             case_term(n, tr, v, r) for (n, tr, v), r in sh) + f"].\nEval vm_compute in (map {fn} cases).\n")
 
     pairs = list(zip(allcases, impl))
+    if not ck.thorough:
+        # quick tier: the model sees the four fixed values and the first random ones of every struct
+        # (the real classes and the monitor see all of them)
+        seen_n = {}
+        keep = []
+        for pr in pairs:
+            nm = pr[0][0]
+            seen_n[nm] = seen_n.get(nm, 0) + 1
+            if seen_n[nm] <= 10 or nm.startswith("prim:"):
+                keep.append(pr)
+        pairs = keep
     # balance the shards by size of the encoding
     pairs_sorted = sorted(range(len(pairs)), key=lambda i: -len(pairs[i][1].get("enc", "")))
     nshards = max(1, min(64, (len(pairs) + 299) // 300))
@@ -505,7 +538,8 @@ def run(ck: Check):
                         disagree.append((case, r, why))
                 if m_spec is not None and in_domain:
                     spec_ok = m_spec[1] if isinstance(m_spec, tuple) else m_spec
-                    if not spec_ok and name not in layout_byte_diffs:
+                    if not spec_ok and (name not in layout_byte_diffs
+                                        or len(r["enc"]) < len(layout_byte_diffs[name][1]["enc"])):
                         layout_byte_diffs[name] = (case, r)
         # details for the cases that disagree / deviate (small second evaluation)
         want = [(c, r) for c, r, _ in disagree] + list(layout_byte_diffs.values())
@@ -524,6 +558,7 @@ def run(ck: Check):
                 layout_byte_diffs[name] = {"struct": name, "value": case[2], "real_bytes": r["enc"],
                                            "kafka_table_bytes": sb}
     ck.obligation("correspondence:codec-model-vs-real-classes", corr_ok, corr_detail)
+    lap(f"codec: {n_model} cases through the model in {len(shards)} coq shards")
     ck.extra["codec_cases_model"] = n_model
     ck.count(n=n_model, nontrivial=False)
 
@@ -608,6 +643,7 @@ def run(ck: Check):
     n_neg = 0
     observations = {}
     nviol_neg = 0
+    seen_what = set()
     for req in neg_req:
         b = req["builder"]
         info = builders[b]
@@ -673,11 +709,14 @@ def run(ck: Check):
                                             "expressible_from_version": MIN_VERSION.get((b, p))})
                 if what:
                     nviol_neg += 1
-                    if nviol_neg <= 6:
+                    wkey = (b, re.sub(r"\d+", "N", what))
+                    if wkey not in seen_what and len(seen_what) < 8:
+                        seen_what.add(wkey)
                         ck.violation(f"{b}: {what}", {"kind": "negotiate", "builder": b, "advertised": adv,
                                                       "present": combo, "outcome": r},
                                      signature=f"negotiate:{b}:{adv}:{'+'.join(combo)}")
     ck.obligation("correspondence:negotiation-model-vs-real-builders", neg_ok, neg_detail)
+    lap(f"negotiation: {n_neg} cases")
     ck.extra["negotiation_cases"] = n_neg
     ck.extra["observations_unlisted_parameters_dropped"] = sorted(observations.values(), key=lambda d: (d["builder"], d["parameter"]))
 
@@ -697,11 +736,11 @@ def run(ck: Check):
             continue
         fields = want["tree"]["fields"]
         flex = bool(fields) and fields[-1][1]["k"] == "TaggedFields"
-        for mode in ["max", "rand", "rand"][: ck.n(2, 3)]:
+        for mode in ["one", "max", "rand", "rand"][: ck.n(3, 4)]:
             v = gen(want["tree"], rng, mode)
             reply_cases.append({"req": s["name"], "resp": want["name"], "v": v, "flex": flex, "corr": 4242})
     rep = run_impl("c11_impl.py", {"reply": reply_cases}, env=IMPL_ENV, timeout=600)["reply"]
-    nbad = 0
+    bad_reply = {}
     for c, r in zip(reply_cases, rep):
         ck.count(key=("reply", c["req"], vhash(c["v"])), nontrivial=True)
         bad = None
@@ -714,14 +753,18 @@ def run(ck: Check):
         elif r.get("dec") != c["v"] or not r.get("rest_ok"):
             bad = f"a {c['resp']} reply is parsed by {r.get('resp_type')} into a different value"
         if bad:
-            nbad += 1
-            if nbad <= 4:
-                ck.violation(f"{c['req']}: {bad}", {"kind": "reply", **c, "real": r}, signature=f"reply:{c['req']}")
+            bad_reply.setdefault(c["req"], []).append((len(json.dumps(c["v"])), bad, c, r))
+    for req in sorted(bad_reply, key=lambda n: min(x[0] for x in bad_reply[n]))[:5]:
+        _, bad, c, r = min(bad_reply[req], key=lambda x: x[0])
+        ck.violation(f"{req}: {bad}", {"kind": "reply", **c, "real": r, "requests_failing": len(bad_reply)},
+                     signature=f"reply:{req}")
     ck.extra["reply_cases"] = len(reply_cases)
+    lap(f"replies: {len(reply_cases)} cases")
 
     # ---------------------------------------------------------------- long values (real classes + model summary)
     long_ok, long_detail = long_values(ck, model_ok)
     ck.obligation("correspondence:long-strings-and-bytes", long_ok, long_detail)
+    lap("long values")
 
     # ---------------------------------------------------------------- outside the quantifier / observations
     ck.extra["outside_quantifier"] = {
@@ -761,8 +804,9 @@ def name_version(n):
 
 def long_values(ck, model_ok):
     """maximum-length strings / bytes: real round trip; the model on the same lengths (summary only)"""
-    cases = [("String", 32767), ("CompactString", 16383), ("CompactString", 16384), ("Bytes", 70000),
-             ("CompactBytes", 2097151)]
+    cases = [("String", 32767), ("CompactString", 16383), ("CompactString", 16384), ("Bytes", 70000)]
+    if ck.thorough:
+        cases.append(("CompactBytes", 2097151))
     req = []
     for k, n in cases:
         v = ("z" * n) if "String" in k else ("7a" * n)
